@@ -3,7 +3,7 @@ CONSTANTS
   MaxName = 255
   MaxRefs = 16
   Count = 1
-  Stride = 7919
+  Stride = 41868361
   Offset = 1
   NS1 = 12
   MaxOps = 3
